@@ -102,6 +102,9 @@ class BufferedByteReceiveStream(ByteReceiveStream):
             amount of bytes could be read from the stream
 
         """
+        if nbytes < 0:
+            raise ValueError("nbytes must not be negative")
+
         while True:
             remaining = nbytes - len(self._buffer)
             if remaining <= 0:
